@@ -481,10 +481,9 @@ int main(int argc, char* argv[])
     // auto old_rdbuf = std::clog.rdbuf();
     // std::clog.rdbuf(out.rdbuf());
 
-    while (std::cin)
+    int16_t sample;
+    while (std::cin.read(reinterpret_cast<char*>(&sample), 2))
     {
-        int16_t sample;
-        std::cin.read(reinterpret_cast<char*>(&sample), 2);
         if (invert_input) sample *= -1;
         demod(sample / 41067.0);
     }
